@@ -198,13 +198,32 @@ Definition hypb (c : cfg) : bool :=
   && forallb (fun i => negb (i_lf i) || (str_in (i_leader i) (c_inputs c) && str_in (i_rank i) (final_ranks c (i_leader i)))) (c_isects c).
 
 (* ---------------------------------------------------------------------------------------- *)
+(* the proposed repair of F8: __build_traffic skips the bindings that are not on a traffic path *)
+(* ---------------------------------------------------------------------------------------- *)
+
+Definition sel_buffer (c : cfg) (bf : buffer) : buffer :=
+  mkBuf (buf_in_tree bf) (filter (fun b => negb (b_bits b) || on_path c bf b) (buf_bindings bf)).
+
+Definition sel_cfg (c : cfg) : cfg :=
+  mkCfg (c_prefix c) (c_output c) (c_inputs c) (c_ftrace c) (c_loopfmt c) (c_fmt_ranks c)
+        (map (sel_buffer c) (c_buffers c)) (c_seqs c) (c_isects c) (c_final_ranks c).
+
+(* what remains of the hypothesis once the off-path bindings are skipped *)
+Definition hyp_rest (c : cfg) : bool :=
+  forallb (fun bf => forallb (fun b => negb (on_path c bf b) || coherent c b) (active bf)) (c_buffers c)
+  && forallb (fun i => negb (i_lf i) || (str_in (i_leader i) (c_inputs c) && str_in (i_rank i) (final_ranks c (i_leader i)))) (c_isects c).
+
+(* ---------------------------------------------------------------------------------------- *)
 (* rendering for the comparison with the emitted text (sets, sorted by the harness)            *)
 (* ---------------------------------------------------------------------------------------- *)
 
 Definition show_pairs (l : list (string * string)) : string :=
   String.concat ";" (map (fun p => fst p ^^ "/" ^^ snd p) l).
 
-Definition names_report (c : cfg) : string :=
+Definition names_report1 (c : cfg) : string :=
   (if hypb c then "T" else "F") ^^ "#" ^^ show_pairs (registered c)
   ^^ "#" ^^ String.concat ";" (map (show_ev []) (dump_events c))
   ^^ "#" ^^ String.concat ";" (map (show_ev []) (feed_events c)).
+
+(* the model as the compiler stands, then '@', then the model with the proposed repair of F8 *)
+Definition names_report (c : cfg) : string := names_report1 c ^^ "@" ^^ names_report1 (sel_cfg c).
